@@ -95,7 +95,9 @@ static bool inRange(int f, uint64_t v) { switch (f) { case 0: return v >= 1 && v
 static CfgVals refFold(const std::vector<CfgVals> &vs, bool ext) { CfgVals r; memset(&r, 0, sizeof r); for (auto &x : vs) for (int f = 0; f < 5; f++) { if ((ext && f < 2) || (!ext && f > 2)) continue; if (!x.has[f] || !inRange(f, x.v[f])) continue; bool smaller = f == 1 || f == 3; if (!r.has[f] || (smaller ? x.v[f] < r.v[f] : x.v[f] > r.v[f])) { r.has[f] = true; r.v[f] = x.v[f]; } } return r; }
 static CfgVals runConfig(Case &c, bool ext, int k, const std::vector<CfgVals> &vals, const int *order, bool unsolicited = false) {
     resetSim(); g_cbCount = 0; g_ext = ext; memset(&g_last, 0, sizeof g_last); g_calls.clear(); Ctx ctx; KSI_AsyncService *has = nullptr; if (ext) KSI_ExtendingHighAvailabilityService_new(ctx, &has); else KSI_SigningHighAvailabilityService_new(ctx, &has);
-    for (int e = 0; e < k; e++) KSI_AsyncService_addEndpoint(has, ("ksi+tcp://" + hostOf(e) + ":" + std::to_string(3000 + e)).c_str(), kLogin.c_str(), kKey.c_str()); KSI_AsyncService_setOption(has, KSI_ASYNC_OPT_PUSH_CONF_CALLBACK, (void *)haConfCb);
+    // in half of the runs the first endpoint is configured with setEndpoint ("reset and add"), the others with addEndpoint
+    bool resetFirst = (k + (int)vals[0].v[2]) % 2 == 0; if (resetFirst) c.cls("config:first-endpoint-through-setEndpoint");
+    for (int e = 0; e < k; e++) { std::string u = "ksi+tcp://" + hostOf(e) + ":" + std::to_string(3000 + e); if (e == 0 && resetFirst) KSI_AsyncService_setEndpoint(has, u.c_str(), kLogin.c_str(), kKey.c_str()); else KSI_AsyncService_addEndpoint(has, u.c_str(), kLogin.c_str(), kKey.c_str()); } KSI_AsyncService_setOption(has, KSI_ASYNC_OPT_PUSH_CONF_CALLBACK, (void *)haConfCb);
     KSI_AsyncHandle *h = nullptr; KSI_Config *cf = nullptr;
     if (unsolicited) { // no configuration request is pending: an ordinary request opens the connections, the endpoints push their configurations on their own
         if (ext) { KSI_ExtendReq *rq = nullptr; KSI_ExtendReq_new(ctx, &rq); KSI_Integer *t0 = nullptr; KSI_Integer_new(ctx, 1500000000, &t0); KSI_ExtendReq_setAggregationTime(rq, t0); KSI_AsyncExtendHandle_new(ctx, rq, &h); }
